@@ -112,10 +112,12 @@ SARR = {"sarray": 4, "string": 1, "ssarray": 2, "sstring": 1}
 TSIZE = {0: 0, 1: 1, 0x21: 1, 0x28: 8, 0x88: 8, 0x110: 16, 0x22: 2, 0x24: 4}
 FIELDS = ["raw", "r16", "rc", "lincom", "linterp", "bit", "sbit", "phase", "mult", "div", "recip", "poly", "win",
           "mplex", "const", "carray", "indir", "string", "sarray", "sindir", "al", "lcbad", "raw/meta", "raw/mstr",
-          "raw/mph", "sraw", "sph", "sconst", "scarray", "xph", "xlc", "xbit", "INDEX", "raw.i", "rc.m", "const.i", "phase.r"]
+          "raw/mph", "sraw", "sph", "sconst", "scarray", "xph", "xlc", "xbit", "INDEX", "raw.i", "rc.m", "const.i", "phase.r",
+          "P_praw", "P_plint", "P_pph", "P_pbit", "P_plc", "P_ppoly", "P_pconst", "P_pmult"]
+AFFIXED = ["P_plint", "P_pph", "P_pbit", "P_plc", "P_ppoly", "P_pmult", "P_praw", "P_pconst"]
 BADFIELDS = ["nosuch", "~", "@L5000", "raw.z", "a%20b", "raw/nosuch", "raw/meta/x", ".", "/"]
 NEWNAMES = ["newf", "raw", "~", "@L5000", "a/b", "raw/newm", "INDEX", "new.f", "ne#w", "nosuch/x", "al"]
-INFIELDS = ["raw", "nosuch", "~", "carray", "@L5000", "r16", "sarray", "lcbad"]
+INFIELDS = ["raw", "nosuch", "~", "carray", "@L5000", "r16", "sarray", "lcbad", "P_praw", "praw"]
 POOL = {
     # (no 2^31..2^40 offsets: a valid gd_putdata there legitimately creates a multi-gigabyte sparse file)
     "l": [0, 1, -1, -2, 5, 49, 50, 51, 1 << 61, 1 << 62, (1 << 62) + 1, I63 - 1, I63 - 2, -I63, -I63 + 1, -(1 << 62), (I63 - 1) // 2 + 1],
@@ -124,7 +126,7 @@ POOL = {
     "u": [0, 1, 2, 3, 4, 5, 1 << 32, I63, I64 - 1, I64 - 2, I64 - 3],
     "i": [0, 1, -1, 2, 3, 5, 6, 7, 63, 64, 65, (1 << 31) - 1, -(1 << 31), 100, 17, 19],
     "t": [0, 1, 0x21, 0x28, 0x88, 0x110, 0x48, 0xfa0, 0x208, 7],
-    "f": [0, 1, -1, 2, -2, (1 << 31) - 1],
+    "f": [0, 1, -1, 2, 3, -2, (1 << 31) - 1],
     "d": ["0", "1.5", "-1", "1e300", "nan", "inf"],
     "x": [0, 1, 2, 4, 8, 15, 0xFFFFFFFF, 0x1000000, 0x2000000],
 }
@@ -148,6 +150,15 @@ EXTRA = [("open_limit", (1,)), ("open_limit", (2,)), ("open_limit", (3,)), ("ope
          ("open_limit", ((1 << 62) + 1,)), ("alter_lincom", ("lincom", 1, "raw")), ("alter_lincom", ("carray", 0, "raw")),
          ("add_const", ("newf", 0x88, 0, 0)), ("constants", (0xfa0,)), ("alter_frameoffset64", (I63 - 1, 0, 0)),
          ("alter_bit", ("bit", "!", 63, 64)), ("alter_bit", ("bit", "!", 0, 65)), ("alter_sbit", ("sbit", "!", 70, 70))]
+
+
+# a field of the kind each alter function is for, and its counterpart in the prefixed fragment
+KIND_FIELD = {"alter_linterp": ["linterp", "P_plint"], "alter_phase": ["phase", "P_pph"], "alter_bit": ["bit", "P_pbit"], "alter_sbit": ["sbit"],
+              "alter_lincom": ["lincom", "P_plc"], "alter_polynom": ["poly", "P_ppoly"], "alter_recip": ["recip"], "alter_mplex": ["mplex"],
+              "alter_window": ["win"], "alter_multiply": ["mult", "P_pmult"], "alter_divide": ["div"], "alter_indir": ["indir"],
+              "alter_sindir": ["sindir"], "alter_const": ["const", "P_pconst"], "alter_carray": ["carray"], "alter_sarray": ["sarray"],
+              "alter_raw": ["rc", "P_praw"], "alter_entry": ["phase", "P_plint"], "rename": ["phase", "P_pph", "raw/meta"],
+              "move": ["phase", "P_pph", "sconst"], "delete": ["const", "P_pconst", "raw"]}
 
 
 def arg_pool(op, sig, k):
@@ -181,7 +192,9 @@ def arg_pool(op, sig, k):
     if op in ("alter_affixes", "include_affix", "include_ns", "fragment_namespace") and k > 0:
         return ["!", "~", "p_", "@L5000", "a/b", "ns."]
     if op in ("add_linterp", "alter_linterp") and k == 2:
-        return ["lut.txt", "nosuch.txt", "~", "@L5000", "!"] if op == "alter_linterp" else ["lut.txt", "nosuch.txt", "~", "@L5000"]
+        return ["lut.txt", "nosuch.txt", "~", "@L5000", "!", "../lut.txt", "other.txt"] if op == "alter_linterp" else ["lut.txt", "nosuch.txt", "~", "@L5000"]
+    if op.startswith("alter_") and c == "i" and k == len(sig) - 1 and op in ("alter_linterp", "alter_raw", "alter_spec", "malter_spec"):
+        return [0, 1]      # a flag (move the table / recode the data)
     if k == 0:
         return FIELDS + BADFIELDS
     return INFIELDS + (["!"] if op.startswith("alter_") else [])
@@ -213,20 +226,37 @@ def gen_sweep(ops, rng, per_op_random):
                 tuples.append(tuple(t))
         # second base: a scalar / different field so that type errors are reached with every other argument
         if sig and sig[0] == "s" and not op.startswith(ADD_OPS_PREFIX):
-            for alt in ("carray", "sarray", "phase", "sraw"):
+            for alt in ("carray", "sarray", "phase", "sraw", "P_plint", "P_pph"):
                 for k in range(1, len(sig)):
                     for v in arg_pool(op, sig, k)[:: 2 if len(sig) > 3 else 1]:
                         t = list(base); t[0] = alt; t[k] = v
                         tuples.append(tuple(t))
+        # alter_*: several arguments wrong/changed at once, on a field of the right kind and on its
+        # counterpart in the fragment that carries a prefix (products of the argument pools; kept in the quick tier)
+        prio = []
+        if op in KIND_FIELD and len(sig) > 1:
+            for alt in KIND_FIELD[op]:
+                pools = [arg_pool(op, sig, k) for k in range(1, len(sig))]
+                prod = list(itertools.product(*pools))
+                lim = 60 if per_op_random <= 6 else 400
+                for t in (prod if len(prod) <= lim else rng.sample(prod, lim)):
+                    prio.append((alt,) + tuple(t))
+        if op.startswith("alter_") and sig and sig[0] == "s" and len(sig) > 2:
+            for alt in AFFIXED:
+                pools = [arg_pool(op, sig, k) for k in range(1, len(sig))]
+                prod = list(itertools.product(*pools))
+                for t in (prod if len(prod) <= 20 else rng.sample(prod, 20 if per_op_random <= 6 else 100)):
+                    tuples.append((alt,) + tuple(t))
         for _ in range(per_op_random):
             tuples.append(tuple(rng.choice(arg_pool(op, sig, k)) for k in range(len(sig))))
-        tuples = [t for o_, t in EXTRA if o_ == op] + tuples
+        prio = [t for o_, t in EXTRA if o_ == op] + prio
+        tuples = prio + tuples
         seen = set()
         for t in tuples:
             if t in seen:
                 continue
             seen.add(t)
-            cases.append({"op": op, "args": t, "cmds": ["rep %d %s %s" % (REPS, op, " ".join(str(a) for a in t))]})
+            cases.append({"op": op, "args": t, "prio": t in prio, "cmds": ["rep %d %s %s" % (REPS, op, " ".join(str(a) for a in t))]})
     return cases
 
 
@@ -267,7 +297,7 @@ def crash_key(op, text, args=()):
         return "C10/hang/%s" % op
     if op == "open_limit" and args and abs(int(args[0])) >= (1 << 60):
         return "C10/open_limit/size-overflow"
-    if op == "rename" and args and (int(args[2]) & 0x10):
+    if op in ("rename", "move") and args and (int(args[2]) & 0x10):
         return "C10/rename/flag-0x10-aliases-GD_REN_META"
     for fn, key in (("gd_get_carray_slice", "C10/slice-wrap/gd_get_carray_slice"), ("_GD_PutCarraySlice", "C10/slice-wrap/gd_put_carray_slice"),
                     ("gd_put_carray_slice", "C10/slice-wrap/gd_put_carray_slice"),
@@ -481,11 +511,11 @@ def main():
     # fragment index
     for op, sig in ops:
         if sig == "f":
-            for i in (0, 1, 2, -1, -2, (1 << 31) - 1, -(1 << 31)):
-                acc = M.q(("fraga %d 2" if op == "rewrite_fragment" else "frag %d 2") % i) == "1"
+            for i in (0, 1, 2, 3, -1, -2, (1 << 31) - 1, -(1 << 31)):
+                acc = M.q(("fraga %d 3" if op == "rewrite_fragment" else "frag %d 3") % i) == "1"
                 if op == "parent_fragment" and i == 0:
                     acc = False        # the root fragment has no parent: GD_E_BAD_INDEX is documented
-                addA(op, (i,), {"pred": None, "accept": acc, "truth": 0 <= i < 2, "tag": "frag"})
+                addA(op, (i,), {"pred": None, "accept": acc, "truth": 0 <= i < 3, "tag": "frag"})
                 nontrivial.add((op, i))
     ph("builds done; running A (%d cases)" % len(A))
     t_a = _t.time()
@@ -571,7 +601,7 @@ def main():
     for k in range(nseq):
         mode = rng.choice(["RDWR", "RDWR", "RDWR", "RDONLY"])
         p0, p1 = rng.choice(["none", "none", "format", "all"]), rng.choice(["none", "format"])
-        M.q("reset %d %d %d" % (mode == "RDWR", {"none": 0, "format": 1, "data": 2, "all": 3}[p0], {"none": 0, "format": 1}[p1]))
+        M.q("reset %d %d %d 0" % (mode == "RDWR", {"none": 0, "format": 1, "data": 2, "all": 3}[p0], {"none": 0, "format": 1}[p1]))
         for (nm, kd, fr, vals, refs) in ents:
             M.q("ent %s %d %d %s | %s" % (nm, kd, fr, " ".join(map(str, vals)), " ".join(refs)))
         cmds, preds = [], []
@@ -596,7 +626,7 @@ def main():
                 q = "call getdata %s %d %d %d %d 1" % (nm, ff, fs, nf, ns); cmd = "op getdata64 %s %d %d %d %d 1" % (nm, ff, fs, nf, ns)
             elif w < 0.85:
                 nm = rng.choice(["n1", "n2", "n3", "raw", "const"])
-                fr = rng.choice([0, 0, 1, 2, -1])
+                fr = rng.choice([0, 0, 1, 3, -1])      # (fragment 2 carries a prefix: names are not modelled)
                 q = "call add %s %d 1" % (nm, fr); cmd = "op add_const %s 0x28 0x28 %d" % (nm, fr)
             else:
                 nm = rng.choice(["n1", "n2", "const", "sconst", "carray", "nosuch", "scarray"])
@@ -638,9 +668,10 @@ def main():
         sweep = []
         tot = sum(len(x) for x in byop.values())
         for op_, l in byop.items():
-            ne = len([1 for o_, _ in EXTRA if o_ == op_])
-            quota = max(8, (3000 * len(l)) // tot)
-            sweep += l[:ne + 1] + rng.sample(l[ne + 1:], min(len(l) - ne - 1, quota))
+            pr = [c for c in l if c["prio"]]
+            rest = [c for c in l if not c["prio"]]
+            quota = max(8, (2500 * len(l)) // tot)
+            sweep += pr + rest[:1] + rng.sample(rest[1:], min(max(0, len(rest) - 1), quota))
     for k, c in enumerate(sweep):
         c["id"] = "B%d" % k
     ph("running B (%d tuples)" % len(sweep))
